@@ -3,9 +3,9 @@
 V ?= asan
 E ?= e2_cache_seq
 REPO ?= /repo
-OUT ?= /verif/build
+H ?= /verif
+OUT ?= $(H)/build
 B := $(OUT)/$(V)
-H := /verif
 ifeq ($(V),asan)
 SAN := -fsanitize=address,undefined -fno-sanitize=nonnull-attribute -fno-sanitize-recover=undefined -fno-omit-frame-pointer
 LSAN := $(SAN)
